@@ -145,6 +145,15 @@ def check_filter(case, ctx: Ctx):
             if out.max() > mx * (1 + 1e-9) + 1e-15:
                 ctx.fail(C, f"maximum:{'nyquist_gain>1e-9' if small else 'nyquist_gain<=1e-9'}",
                          f"bw {b} MHz: output max {out.max()} > input max {mx}", cont=True)
+        # keep_ends=True (the ends are held instead of ramping from zero): same length, and
+        # the same output as the plain filter when the input is zero at both ends anyway
+        # (the tree pads circularly: 2% of the peak allowed where it wraps)
+        ke = np.asarray(ctx.must(lambda: ch.modulate(x, eom=use_eom, keep_ends=True), C,
+                                 "modulate(keep_ends)").as_array(), dtype=float)
+        if len(ke) != len(x) + 2 * r:
+            ctx.fail(C, f"length:keep_ends:{tag}", f"{len(ke)} != {len(x)} + 2*{r} (bw {bw}, eom bw {eom})")
+        elif len(x) >= 2 and x[0] == 0 and x[-1] == 0 and np.max(np.abs(ke - out)) > 2e-2 * scale + 1e-12:
+            ctx.fail(C, f"keep_ends_differs_on_zero_ended_input:{tag}", f"{np.max(np.abs(ke - out))}")
         # pointwise agreement with M7
         ref = m7(x, b, r)
         if len(ref) == len(out) and sigma_t(b) >= 2:
